@@ -100,7 +100,8 @@ def gen_case(rng, nthreads=None):
   # `_shared`: one scoped callable object (fetched once, under scope 'job') is called by every thread at every
   # observation, with a scheduling point *inside* the call - other threads call it while a call is in progress
   schedule += [t for t in range(nt) for _ in range(total * (2 if shared else 1))]  # let everybody finish
-  return {'dom': 'scopes', 'threads': threads, 'binds': binds, 'schedule': schedule, '_shared': shared}
+  return {'dom': 'scopes', 'threads': threads, 'binds': binds, 'schedule': schedule, '_shared': shared,
+          '_ctx': len(threads) > 1 and rng.random() < 0.35}
 
 
 def count_groups(items):
@@ -274,7 +275,15 @@ def run_impl(case):
     finally:
       st.finish(tid)
 
-  ts = [threading.Thread(target=worker, args=(i,), daemon=True) for i in range(n)]
+  if case.get('_ctx'):
+    # workers that run in a copy of the spawning thread's contextvars context (what asyncio.to_thread and executor
+    # wrappers do), made after the spawner has used the scope machinery: the stacks stay private all the same
+    import contextvars
+    with gin.config_scope('spawner'):
+      list(gin.current_scope())
+    ts = [threading.Thread(target=contextvars.copy_context().run, args=(worker, i), daemon=True) for i in range(n)]
+  else:
+    ts = [threading.Thread(target=worker, args=(i,), daemon=True) for i in range(n)]
   for t in ts:
     t.start()
   for tid in case['schedule']:
